@@ -838,7 +838,7 @@ impl Check for C19 {
         }
     }
     fn rule(&self) -> String {
-        "definitions = {--point X | X Y | X Y Z, --point --w W --h H [--o], --point --w W X, --x X --y Y (a group starting with a valued item)} x {bare, optional, many} x {no, optional, repeated trailing positional} x {neighbouring switch absent, declared before, declared after}; plus blocks inside blocks: an adjacent command (bare / optional / many) whose sub-parser holds a repeated adjacent group --point X [Y] (and optionally its own switch) beside a top-level switch, all vectors of length <= 6-7 over {cmd, --point, 1, 2, -v, -x}; every vector of the token tree over 6-8 tokens (leading flag, members, inline member, words, foreign -v / --zz, `--`); each node judged by the block scanner (a block = leading flag + contiguous members; one value per block; everything else belongs to the surrounding level); state = (definition, vector), transition = append token; non-trivial = judged vector containing the group's leading flag".into()
+        "definitions = {--point X | X Y | X Y Z, --point --w W --h H [--o], --point --w W X, --x X --y Y (a group starting with a valued item)} x {bare, optional, many} x {no, optional, repeated trailing positional} x {neighbouring switch absent, declared before, declared after}; plus blocks inside blocks: an adjacent command (bare / optional / many) whose sub-parser holds a repeated adjacent group --point X [Y] (and optionally its own switch) beside a top-level switch, all vectors of length <= 6-7 over {cmd, --point, 1, 2, -v, -x}; every vector of the token tree over 6-8 tokens (leading flag, members, inline member, words, foreign -v / --zz, `--`); each node judged by the block scanner (a block = leading flag + contiguous members; one value per block; everything else belongs to the surrounding level); state = (definition, vector), transition = append token; non-trivial = judged vector containing the group's leading flag; plus an option-struct with short names (-r [-t] [-f] -w W under many): every way of joining neighbouring words of an accepted spelled-out line gives the same value".into()
     }
     fn bounds(&self, tier: Tier) -> Value {
         json!({"vector_length": tier.pick("6 (5 for the 4-member option-struct, 7 nested)", "7 (8 for --point X Y Z and nested)"), "blocks": "0..3 per line within that length"})
